@@ -162,3 +162,7 @@ REGISTRY["C14"] = {"modules": _ROBOT_MODS, "verify_modules": ["selector", "robot
                    "standins": {"quick": {"bounded (the ONLY coverage of the discovery half): generated packages on disk, real imports - discovery, duplicates, defaults, failing imports/constructors, FMS on/off, start/periodic/disable lifecycle": [PY, "native/replay_c14.py"]}}}
 REGISTRY["C11"]["module_groups"] = [_ROBOT_MODS, ["tunable"]]
 REGISTRY["C11"]["standins"] = {"quick": {"bounded: real collect_feedbacks + real ntcore: keys (explicit / get_ prefix removed), topic types from return hints, published values": [PY, "native/replay_c09.py"]}}
+REGISTRY["C10"]["module_groups"] = [_ROBOT_MODS, ["reset"]]
+for _pid in ("C05", "C06", "C07", "C10", "C11"):
+    REGISTRY[_pid].setdefault("standins", {"quick": {}})["quick"]["bounded: real _create_components/_on_mode_*_components/_enabled_periodic/_do_periodics on random layouts, raising sets, FMS on/off (orders, resets, feedback values, exception policy)"] = [PY, "native/replay_robot.py"]
+    REGISTRY[_pid]["replay"] = [PY, "native/replay_robot.py"]
